@@ -515,7 +515,7 @@ def execute(ctx, case, batch):
     return S, bad
 
 
-def run(ctx):
+def _run_vertical(ctx):
     rng = ctx.rng
     total = ctx.n(1000, 10000)
     per_base = ctx.n(45, 110)
@@ -635,3 +635,11 @@ def _paths(ops, prefix=()):
         yield prefix + (j,)
         if op[0] == 'u':
             yield from _paths(op[1], prefix + (j,))
+
+
+
+def run(ctx):
+    _run_vertical(ctx)
+    # second, independent tie: queue programs on the whole-program machine (whole-trace correspondence) + exactly-once/order monitor
+    from harness import machine_prop
+    machine_prop.run(ctx, [('queues', 120, 3000, {})], ['C10'])
